@@ -116,6 +116,14 @@ def df_group(inp, W):
     if mode == "count":
         out = data.count(*by)
         return {"out": out, "recv": data, "alias": _frame_alias(W, out, data)}
+    if mode == "count_twice":
+        # history: group, edit the key column in place, group again (state kept on column objects must not leak)
+        first = data.count(*by)
+        col = data[by[0]]
+        for i, v in enumerate(inp["new"]):
+            col[i] = v
+        out = data.count(*by)
+        return {"out": out, "first": first}
     if mode == "split":
         return {"out": [list(x) for x in data.split(*by)]}
     if mode == "modify":
@@ -1034,3 +1042,36 @@ def geo_roundtrip(inp, W):
         return {"back": di.GeoJSON.read(p)}
     finally:
         shutil.rmtree(d, ignore_errors=True)
+
+@op
+def str_proxy(inp, W):
+    """x.str.<name>(*args) next to numpy.strings.<name>(x, *args)"""
+    np = W.np
+    x = inp["x"]; name = inp["name"]; args = list(inp["args"])
+    from .tree import Raised
+    def call(f):
+        try: return f()
+        except Exception as e: return Raised(type(e).__name__, str(e)[:100])
+    via = call(lambda: getattr(x.str, name)(*args))
+    direct = call(lambda: getattr(np.strings, name)(x, *args))
+    return {"via": via, "direct": direct, "cls": type(via).__name__}
+
+@op
+def geo_restrict(inp, W):
+    full = geo_read({"collection": inp["collection"]}, W)["out"]
+    part = geo_read({"collection": inp["collection"], "columns": inp["cols"]}, W)["out"]
+    return {"full": full, "part": part}
+
+@op
+def vec_op_twice(inp, W):
+    """the same Vector object is used, edited in place, and used again (state kept on the object must not leak)"""
+    v = inp["v"]; m = inp["method"]
+    def call():
+        if m == "sort": return v.sort(dir=inp["dir"])
+        if m == "rank": return v.rank(method=inp["rank_method"])
+        return v.unique()
+    first = call()
+    for i, x in enumerate(inp["new"]):
+        v[i] = x
+    out = call()
+    return {"out": out, "recv": v, "alias": W.shares(out, v)}
